@@ -18,8 +18,10 @@ namespace vh
     {
         std::string text = f.size() > 0 ? f[0] : std::string();
         std::string actions = f.size() > 1 ? f[1] : std::string();
+        // f[2]: layout (model only); f[3]: max_runtime in ms (0 = none). Action W lets limit + 50 ms of virtual time pass
+        long limit_ms = f.size() > 3 && !f[3].empty() ? std::stol(f[3]) : 0;
         vclock_start(0, 1);
-        auto v = make_vm(regmode::real);
+        auto v = make_vm(regmode::real, limit_ms);
         if (text != "-")
         {
             auto set = v.rt->parser_sqf().parse(*v.rt, text, sqf::runtime::fileio::pathinfo(std::string("f"), std::string()));
@@ -39,6 +41,10 @@ namespace vh
             case 'a': act = sqf::runtime::runtime::action::assembly_step; break;
             case 'l': act = sqf::runtime::runtime::action::line_step; break;
             case 'v': act = sqf::runtime::runtime::action::leave_scope; break;
+            case 'W':
+                vclock_advance_ms(limit_ms + 50);
+                out += " ; wait:" + std::string(state_name(v.rt->runtime_state())) + ":" + ctl_position(*v.rt);
+                continue;
             default: out += " ; bad-action"; continue;
             }
             auto res = v.rt->execute(act);
